@@ -51,7 +51,7 @@ def repo_frame(tb):
 
 class Event(object):
     __slots__ = ("idx", "kind", "step", "conn", "msg", "t", "wall", "frames", "errors",
-                 "pre", "post", "upre", "upost", "notes", "c09", "dbcalls", "inc", "sends", "mids")
+                 "pre", "post", "upre", "upost", "notes", "c09", "dbcalls", "inc", "sends", "mids", "fstates", "_fs_calls")
 
     def __init__(self, idx, kind, step, conn, msg, t, wall, inc):
         self.idx = idx
@@ -71,6 +71,8 @@ class Event(object):
         self.dbcalls = 0
         self.sends = None     # for batches: list of msgs
         self.mids = []        # for batches: (frame index, chan, usage) at every ack
+        self.fstates = {}     # frame index -> (channel key, usage key) as an independent reader sees them
+        self._fs_calls = -1
 
     def frames_for(self, cid):
         return [f for (c, f) in self.frames if c == cid]
@@ -140,7 +142,7 @@ class SimConn(object):
 
 
 class World(object):
-    def __init__(self, seed, cfg, rng_modes=None, dirname=None, t0=0.0, name="w"):
+    def __init__(self, seed, cfg, rng_modes=None, dirname=None, t0=0.0, name="w", rng_salt=""):
         self.seed = seed
         self.cfg = dict(cfg)
         self.rng_modes = dict(rng_modes or {})
@@ -155,7 +157,7 @@ class World(object):
             self.owns_dir = True
         self.dir = dirname
         self.rng_choice = seams.make_rng(seed, "choice")
-        self.rng_urandom = seams.make_rng(seed, "urandom")
+        self.rng_urandom = seams.make_rng(seed, "urandom" + rng_salt)
         self.keyed_counter = 0
         self.collide_budget = 40
         self.wall_offset = WALL_BASE + float(self.cfg.get("wall_frac", 0.37))
@@ -282,6 +284,7 @@ class World(object):
     def end(self):
         ev = self.cur
         self.cur = None
+        ev.notes.pop("_fs_last", None)
         if ev.pre is None or ev.dbcalls or ev.kind in ("start", "restart", "stop"):
             ev.post, ev.upost = self.snapshot()
             if ev.pre is None:
@@ -644,6 +647,16 @@ class World(object):
             ev.mids.append((len(ev.frames) - 1, ch, us))
         if self.check_c09:
             self._c09_at_frame(c, obj, t)
+            if t != "ack" and t != "welcome":
+                # what has been stored (as a second reader sees it) when this frame goes out
+                if ev._fs_calls != ev.dbcalls:
+                    ev._fs_calls = ev.dbcalls
+                    if ev.dbcalls == 0 and ev.pre is not None:
+                        ev.notes["_fs_last"] = None      # nothing touched: equals the pre-state
+                    else:
+                        ch, us = self.snapshot()
+                        ev.notes["_fs_last"] = (ch.key(), us.key() if us is not None else None)
+                ev.fstates[len(ev.frames) - 1] = ev.notes.get("_fs_last")
         if self.capture:
             self.take_image("frame:%s" % t)
 
